@@ -57,9 +57,10 @@ def run_real(trx_defs, ops, ports=(5700, 6700)):
         for op in ops:
             k = op[0]
             if k == "ctrl":
+                pre = enc_state(*s.state())
                 o, exc = s.ctrl(op[1], op[2])
                 obs += o
-                events.append(dict(op=op, obs=o, exc=exc, sleeps=list(s.sleeps)))
+                events.append(dict(op=op, obs=o, exc=exc, sleeps=list(s.sleeps), pre=pre, post=enc_state(*s.state())))
                 s.sleeps.clear()
             elif k == "data":
                 o, exc = s.data(op[1], op[2])
@@ -309,3 +310,34 @@ def rejected_cmd(rng):
         "CMD SETTA 64", "CMD SETTA -1", "CMD FAKE_DROP -1", "CMD FAKE_DROP 2 0", "CMD FAKE_DROP 3 -1", "CMD FAKE_DROP 0 0",
         "CMD FAKE_TOA 10 -5", "CMD FAKE_CI 10 -5", "CMD FOO 1 2", "CMD NOHANDOVER 1 2", "CMD SETTSC 7", "CMD SETRXGAIN 10",
         "CMD ECHO", "CMD RXTUNE", "CMD TXTUNE 1 2", "CMD SETFH 1"]))
+
+
+def refused_leaves_no_trace(ctx, script, real, keyp):
+    """generic clause used by every session-based check: a control datagram that is refused (negative status), ignored
+    (no reply) or that raises must leave the whole observable state of every transceiver exactly as it was"""
+    from . import session_check as SC
+    defs, ops = script
+    cfg, obs, events = real
+    n = 0
+    for e in events:
+        if e["op"][0] != "ctrl" or "pre" not in e:
+            continue
+        o = e["obs"]
+        refused = False
+        if o[1] == 1:
+            try:
+                rsp = bytes(o[3:]).decode("ascii").strip("\0").split(" ")
+                refused = len(rsp) >= 3 and rsp[2].lstrip("-").isdigit() and int(rsp[2]) < 0
+            except UnicodeDecodeError:
+                refused = False
+        elif o[1] in (0, 2):
+            refused = True           # ignored (no reply) or an exception escaped
+        if not refused:
+            continue
+        n += 1
+        if e["pre"] != e["post"]:
+            pos = next((i for i, (a, b) in enumerate(zip(e["pre"], e["post"])) if a != b), min(len(e["pre"]), len(e["post"])))
+            ctx.oracle_fail("a refused / ignored control command changed the state of a transceiver",
+                            dict(command=SC.describe(e["op"]), trx_defs=defs, first_difference_at_int=pos, before=e["pre"][max(0, pos - 4):pos + 6],
+                                 after=e["post"][max(0, pos - 4):pos + 6], ops=[SC.describe(x) for x in ops][:120]), key=keyp + "-refused-changes-state")
+    ctx.count("refused_commands_checked", n)
